@@ -73,13 +73,13 @@ def _reset_logic_state():
 
     if not _BASE_STATE:
         _BASE_STATE.update(
-            ctr=next(L._ctr), axioms=list(L.SPEC_AXIOMS), upk=dict(L._UPK), anc=dict(L._ANC), pre=dict(L._PRE), filt=dict(L._FILT), filtcb=list(L._FILTCB), level=dict(L._LEVEL), leafcnt=dict(L._LEAFCNT), height=dict(L._HEIGHT),
+            ctr=next(L._ctr), axioms=list(L.SPEC_AXIOMS), upk=dict(L._UPK), anc=dict(L._ANC), pre=dict(L._PRE), filt=dict(L._FILT), filtcb=list(L._FILTCB), level=dict(L._LEVEL), leafcnt=dict(L._LEAFCNT), height=dict(L._HEIGHT), visit=dict(L._VISIT),
             strs=dict(exprs.STR_CONSTS),
         )
     b = _BASE_STATE
     L._ctr = itertools.count(b["ctr"] + 1)
     L.SPEC_AXIOMS[:] = b["axioms"]
-    for d, k in ((L._UPK, "upk"), (L._ANC, "anc"), (L._PRE, "pre"), (L._FILT, "filt"), (L._LEVEL, "level"), (L._LEAFCNT, "leafcnt"), (L._HEIGHT, "height")):
+    for d, k in ((L._UPK, "upk"), (L._ANC, "anc"), (L._PRE, "pre"), (L._FILT, "filt"), (L._LEVEL, "level"), (L._LEAFCNT, "leafcnt"), (L._HEIGHT, "height"), (L._VISIT, "visit")):
         d.clear()
         d.update(b[k])
     L._FILTCB[:] = b["filtcb"]
